@@ -46,6 +46,21 @@ TARGETS = {
                  "--append-fn", "encode::write_map_len=write_map_len", "--append-fn", "encode::write_array_len=write_array_len",
                  "--ptr-buffer", "output_bytes", "--import", "Gen.CodesGen", "--import", "Gen.StateGen", "--import", "Gen.InternGen", "--import", "Msgpack.Rmp"],
     },
+    # provider/src/read/lazy_value_ref.rs: the bounds-checked cursor reads and LazyValueRef::new, the decoder of ONE value header
+    # (the basis of the lazy reader model and of the sequential-decoder spec) (C01, C08, C11)
+    "LazyNewGen": {
+        "src": "provider/src/read/lazy_value_ref.rs",
+        "args": ["--types", "Cursor", "--impl-of", "LazyValueRef",
+                 "--only", "new,read_marker,read_f32,read_f64,read_i8,read_u8,read_i16,read_u16,read_i32,read_u32,read_i64,read_u64,new_number,new_string",
+                 "--extern-enum", "ErrorCode=EC_", "--extern-consts-of-w",
+                 "--foreign", "Marker{Null;True;False;FixPos(u8);FixNeg(i8);U8;U16;U32;U64;I8;I16;I32;I64;F32;F64;FixStr(u8);Str8;Str16;Str32;FixArray(u8);Array16;Array32;FixMap(u8);Map16;Map32;Other}",
+                 "--foreign", "StringRef{ptr:usize;len:usize}",
+                 "--foreign", "ArrayRef{len:usize;processed_elements:Vec<LazyValueRef>;end_position_of_last_processed_element:usize}",
+                 "--foreign", "ObjectRef{len:usize;processed_elements:Vec<(LazyValueRef,LazyValueRef)>;end_position_of_last_processed_element:usize}",
+                 "--foreign", "LazyValueRef{Null;Bool(bool);Number(f64);String(StringRef);Array(ArrayRef);Object(ObjectRef)}",
+                 "--extern-fn", "Marker::from_u8=marker_of_u8:Marker", "--drop-param", "bump",
+                 "--import", "Gen.NanBoxGen", "--import", "Base.F64", "--import", "Read.LazyTypes"],
+    },
 }
 
 
